@@ -11,7 +11,10 @@ from ..wrules import FnModView, check_fnmod_delegation, trait_methods, impl_meth
 RAW = ["r#type", "r#match", "r#loop"]
 SYMS = ["ident", "mut", "ref", "raw", "wild", "tuple", "newtype", "newtype2", "struct", "refpat", "fnname", "argname", "fnname_in_newtype",
         # a single inner binding that carries a binding mode / the top-level `@` form
-        "newtype_mut", "struct_ref", "tuple_mut_wild", "newtype_ref_mut", "ident_at"]
+        "newtype_mut", "struct_ref", "tuple_mut_wild", "newtype_ref_mut", "ident_at",
+        # `S { field: binding }` with a binding named differently from the field, and a plain parameter named like a
+        # neighbour's FIELD (the lifted name is the binding's, never the field's)
+        "struct_rename", "fieldname"]
 
 
 def param(sym, i, n, fname):
@@ -46,6 +49,11 @@ def param(sym, i, n, fname):
         return ("N(ref mut a%d)" % i, "N", "keep", "a%d" % i)
     if sym == "ident_at":
         return ("a%d @ N(_)" % i, "N", "keep", "a%d" % i)
+    if sym == "struct_rename":
+        return ("S%d { x%d: y%d }" % (i, i, i), "S%d" % i, "keep", "y%d" % i)
+    if sym == "fieldname":
+        j = (i + 1) % n
+        return ("x%d" % j, "u8", "keep", "x%d" % j)
     if sym == "fnname":
         return (fname, "u8", "fresh", None)
     if sym == "argname":
